@@ -11,7 +11,7 @@ definitions the expression translator regenerates from the Go source on every ru
   swaps.go           SwapState.updateSpreadRewardGrowthGlobal                    ↔ `CL.scaleCheck` + `CLRewards.spreadGrowth`
                      validateSwapProgressAndAmountConsumption, edgeCaseInequalityBasedOnSwapStrategy ↔ the guards of `CL.loopBody`
   swapstrategy       UpdateTickAfterCrossing, SetLiquidityDeltaSign              ↔ the crossing step of `CL.loopBody`
-  math/tick.go       TicksToSqrtPrice
+  math/tick.go       TicksToSqrtPrice   (TickToSqrtPrice, RoundDownTickToSpacing, SqrtPriceToTickRoundDownSpacing: Props/TieGenCLTick.lean)
   model/pool.go      IsCurrentTickInRange, UpdateLiquidityIfActivePosition, CalcActualAmounts, ApplySwap
                                                                                  ↔ `CLPool.inRange/calcActualAmounts`, `CL.execSwap`
 A changed operator, operand, operand order, comparison, branch or constant in any of these Go functions changes the
